@@ -50,7 +50,30 @@ func levelKeyKind(c *core.Ctx, fn *core.Func, info *types.Info, key ast.Expr, at
 		return "parameter " + obj.Name()
 	}
 	// range key over a level-keyed map / range value over a []Level slice / counted descent loop
-	for _, pn := range pathTo(fn.Decl.Body, at) {
+	path := pathTo(fn.Decl.Body, at)
+	// a loop over levels nested inside another loop over levels: inside, the state of one level is touched while
+	// another level is being processed, so "the loop's own level" is not "the level currently being processed"
+	nLevelLoops := 0
+	for _, pn := range path {
+		switch s := pn.(type) {
+		case *ast.RangeStmt:
+			if s.Key != nil && isLevelKeyed(info.TypeOf(s.X)) {
+				nLevelLoops++
+			} else if sl, ok := info.TypeOf(s.X).Underlying().(*types.Slice); ok && s.Value != nil {
+				if b, ok := sl.Elem().Underlying().(*types.Basic); ok && b.Kind() == types.Uint {
+					nLevelLoops++
+				}
+			}
+		case *ast.ForStmt:
+			if cond, ok := s.Cond.(*ast.BinaryExpr); ok && strings.HasSuffix(canon(cond.Y), "deepestLevel") {
+				nLevelLoops++
+			}
+		}
+	}
+	if nLevelLoops > 1 {
+		return ""
+	}
+	for _, pn := range path {
 		switch s := pn.(type) {
 		case *ast.RangeStmt:
 			// a level computed in this iteration from the iteration's own element (level := uint(tmID) + levelDiff)
@@ -300,7 +323,122 @@ func r19RequestedSetOnlySelects(c *core.Ctx) {
 		}
 		c.Check(R, "level-dropped-by-own-result-only/"+aps.Name, aps.Decl.Pos(), okDel && nd == 1, "the drop decision reads only the current iteration's ring result and the configuration", "a level is dropped depending on other per-level state")
 	}
+	r19DeepestLevelUses(c)
 	c.Floor(R, 4)
+}
+
+// r19DeepestLevelUses: the index is built at the deepest *requested* level, so ix.deepestLevel is a function of the
+// requested set.  On the snapping call graph it may only bound the descent over all levels (counter <= deepest)
+// and scale deepest addresses/spans to a level (Pow2(deepest - level)); any other use (a comparison that switches
+// behaviour on "is this the deepest level", …) makes a level's result depend on which deeper levels were requested.
+func r19DeepestLevelUses(c *core.Ctx) {
+	const R = "R19"
+	root := c.P.Funcs["snap.SnapPolygon"]
+	if root == nil || root.SSA == nil {
+		return
+	}
+	reach := core.ReachableNoStdlibTransit(c.P.VTA(), root.SSA)
+	n := 0
+	for _, f := range sortedFuncs(c.P) {
+		sp := core.ShortPkg(f.Pkg.PkgPath)
+		if (sp != "snap" && sp != "pointindex") || f.SSA == nil {
+			continue
+		}
+		if _, ok := reach[f.SSA]; !ok {
+			continue
+		}
+		fns := append([]*ssa.Function{f.SSA}, f.SSA.AnonFuncs...)
+		k := 0
+		for _, fn := range fns {
+			for _, b := range fn.Blocks {
+				for _, in := range b.Instrs {
+					var read ssa.Value
+					switch x := in.(type) {
+					case *ssa.FieldAddr:
+						if fieldNameOf(x.X.Type(), x.Field) == "deepestLevel" {
+							for _, r := range *x.Referrers() {
+								if u, ok := r.(*ssa.UnOp); ok && u.Op == token.MUL {
+									read = u
+								} else if st, isStore := r.(*ssa.Store); isStore && st.Addr == ssa.Value(x) && isAlloc(x.X) {
+									// construction of a new index
+								} else {
+									k++
+									n++
+									c.Bad(R, fmt.Sprintf("deepest-level-use/%s#%d", f.Name, k), x.Pos(), "the deepest level field is written or its address escapes on the snapping call graph")
+								}
+							}
+						}
+					case *ssa.Field:
+						if fieldNameOf(x.X.Type(), x.Field) == "deepestLevel" {
+							read = x
+						}
+					}
+					if read == nil {
+						continue
+					}
+					for _, r := range *read.Referrers() {
+						k++
+						n++
+						construct := fmt.Sprintf("deepest-level-use/%s#%d", f.Name, k)
+						kind := ""
+						if bo, ok := r.(*ssa.BinOp); ok {
+							switch {
+							case bo.Op == token.LEQ && bo.Y == read:
+								if _, isPhi := bo.X.(*ssa.Phi); isPhi && usedOnlyAsLoopCondition(bo) {
+									kind = "upper bound of the descent over all levels"
+								}
+							case bo.Op == token.SUB && bo.X == read:
+								onlyPow := len(*bo.Referrers()) > 0
+								for _, rr := range *bo.Referrers() {
+									call, ok := rr.(*ssa.Call)
+									if !ok || call.Call.StaticCallee() == nil || call.Call.StaticCallee().Name() != "Pow2" {
+										onlyPow = false
+									}
+								}
+								if onlyPow {
+									kind = "scale between the deepest level and a level: Pow2(deepest - level)"
+								}
+							}
+						}
+						c.Check(R, construct, r.Pos(), kind != "", kind,
+							"ix.deepestLevel (the deepest *requested* level) is used for something other than bounding the descent or scaling deepest addresses: `"+r.String()+"` makes the behaviour on one level depend on which deeper levels were requested")
+					}
+				}
+			}
+		}
+	}
+	c.Check(R, "deepest-level-uses-found", root.Decl.Pos(), n >= 5, fmt.Sprintf("%d uses of ix.deepestLevel on the snapping call graph, all bounds or scales", n), fmt.Sprintf("only %d uses of ix.deepestLevel found on the snapping call graph (expected at least 5): the rule no longer sees the level arithmetic", n))
+}
+
+func isAlloc(v ssa.Value) bool { _, ok := v.(*ssa.Alloc); return ok }
+
+func fieldNameOf(t types.Type, idx int) string {
+	if p, ok := t.Underlying().(*types.Pointer); ok {
+		t = p.Elem()
+	}
+	if st, ok := t.Underlying().(*types.Struct); ok && idx < st.NumFields() {
+		return st.Field(idx).Name()
+	}
+	return ""
+}
+
+// usedOnlyAsLoopCondition: the comparison only feeds an If that sits in a loop one of whose edges leaves the loop.
+func usedOnlyAsLoopCondition(cmp *ssa.BinOp) bool {
+	refs := *cmp.Referrers()
+	if len(refs) != 1 {
+		return false
+	}
+	i, ok := refs[0].(*ssa.If)
+	if !ok {
+		return false
+	}
+	b := i.Block()
+	for _, set := range naturalLoops(b.Parent()) {
+		if set[b] && (!set[b.Succs[0]] || !set[b.Succs[1]]) {
+			return true
+		}
+	}
+	return false
 }
 
 // R20: result keys are the requested ids.
